@@ -57,8 +57,9 @@ def cases(tier):
     return out
 
 
-def build_step(key):
+def build_step(key, num_data=1):
     cfg = sc.parse_key(key)
+    cfg.num_data = num_data
 
     def make(dom):
         d = cfg.d
@@ -121,11 +122,12 @@ def build_step(key):
     return make, goals
 
 
-def build_grid(key, nsteps=2, init="inexact"):
+def build_grid(key, nsteps=2, init="inexact", correct=True):
     """solve_fixed_grid end to end == init followed by the solver's own steps, stacked, at the right
     times (relational: both sides are the real code in one trace; the step itself is decided by the
     one-step obligations, so this closes the induction 'init + step => all grids' for the driver)."""
     cfg = sc.parse_key(key)
+    cfg.correct = correct
     d, n = cfg.d, cfg.n
 
     def make(dom):
